@@ -108,13 +108,13 @@ func (tree *Tree[T]) Name() string { return tree.name }
 //
 // methods 可以为空，表示采用 [AnyMethods] 中的值。
 func (tree *Tree[T]) Add(pattern string, h T, ms []types.Middleware[T], methods ...string) error {
-	if err := tree.checkAmbiguous(pattern); err != nil {
-		return err
-	}
-
-	if tree.locker != nil {
+	if tree.locker != nil { // checkAmbiguous 也会读取树的内容
 		tree.locker.Lock()
 		defer tree.locker.Unlock()
+	}
+
+	if err := tree.checkAmbiguous(pattern); err != nil {
+		return err
 	}
 
 	if len(methods) == 0 {
@@ -245,20 +245,12 @@ func (tree *Tree[T]) getNode(pattern string) (*node[T], error) {
 	return tree.node.getNode(segs)
 }
 
-// 此方法主要用于将 locker 的使用范围减至最小。
-func (tree *Tree[T]) match(ctx *types.Context) *node[T] {
+// 在读锁的保护下查找节点及其处理函数，节点的 handlers 也必须在锁内读取。
+func (tree *Tree[T]) match(ctx *types.Context, method string) (types.Node, T, bool) {
 	if tree.locker != nil {
 		tree.locker.RLock()
 		defer tree.locker.RUnlock()
 	}
-	return tree.node.matchChildren(ctx)
-}
-
-// Handler 查找与参数匹配的处理对象
-//
-// 如果未找到，也会返回相应在的处理对象，比如 tree.notFound 或是相应的 methodNotAllowed 方法。
-func (tree *Tree[T]) Handler(ctx *types.Context, method string) (types.Node, T, bool) {
-	ctx.SetRouterName(tree.Name())
 
 	if tree.hasTrace && method == http.MethodTrace {
 		return tree.node, tree.trace, true
@@ -268,7 +260,7 @@ func (tree *Tree[T]) Handler(ctx *types.Context, method string) (types.Node, T, 
 	if ctx.Path == "*" || ctx.Path == "" {
 		node = tree.node
 	} else {
-		node = tree.match(ctx)
+		node = tree.node.matchChildren(ctx)
 	}
 
 	if node == nil || node.size() == 0 {
@@ -278,6 +270,14 @@ func (tree *Tree[T]) Handler(ctx *types.Context, method string) (types.Node, T, 
 		return node, h, true
 	}
 	return node, node.handlers[methodNotAllowed], false
+}
+
+// Handler 查找与参数匹配的处理对象
+//
+// 如果未找到，也会返回相应在的处理对象，比如 tree.notFound 或是相应的 methodNotAllowed 方法。
+func (tree *Tree[T]) Handler(ctx *types.Context, method string) (types.Node, T, bool) {
+	ctx.SetRouterName(tree.Name())
+	return tree.match(ctx, method)
 }
 
 // Routes 获取当前的所有路由项以及对应的请求方法
@@ -309,6 +309,11 @@ func (tree *Tree[T]) Find(pattern string) *node[T] { return tree.node.find(patte
 //
 // NOTE: 会检测 pattern 是否存在于 tree 中。
 func (tree *Tree[T]) URL(buf *errwrap.StringBuilder, pattern string, ps map[string]string) error {
+	if tree.locker != nil {
+		tree.locker.RLock()
+		defer tree.locker.RUnlock()
+	}
+
 	n := tree.Find(pattern)
 	if n == nil || n.size() == 0 { // 没有处理函数的节点只是其它路由项的公共前缀
 		return fmt.Errorf("%s 并不是一条有效的注册路由项", pattern)
@@ -346,6 +351,11 @@ func (tree *Tree[T]) URL(buf *errwrap.StringBuilder, pattern string, ps map[stri
 
 // ApplyMiddleware 为已有的路由项添加中间件
 func (tree *Tree[T]) ApplyMiddleware(ms ...types.Middleware[T]) {
+	if tree.locker != nil {
+		tree.locker.Lock()
+		defer tree.locker.Unlock()
+	}
+
 	tree.notFound = ApplyMiddleware(tree.notFound, "", "", tree.Name(), ms...)
 	if tree.hasTrace {
 		tree.trace = ApplyMiddleware(tree.trace, http.MethodTrace, "", tree.Name(), ms...)
